@@ -295,7 +295,8 @@ mod xen {
         r.set_state(state);
         r.emu.take_log();
         start_recording();
-        let _ = crate::crash::quiet_unwind(|| c04::run_op(&vs, op, tag));
+        let describe0 = || (format!("{}/crash", key_base), format!("{:?} crashed", op), json!({"region": r.kind, "region_len": r.len, "op": op.to_json(), "tag": tag}));
+        let _ = crate::crash::guarded(ctx, &describe0, || crate::crash::quiet_unwind(|| c04::run_op(&vs, op, tag)));
         let maplog = stop_recording();
         let n_mmap = maplog.iter().filter(|e| matches!(e, MapEvent::Map { fd, .. } if *fd >= 0)).count();
         let n_grant = r.emu.take_log().iter().filter(|e| matches!(e, DevEvent::MapGrant { .. })).count();
@@ -315,7 +316,11 @@ mod xen {
                 } else {
                     r.emu.state.borrow_mut().fail_map_in = Some(k as u32);
                 }
-                let res = crate::crash::quiet_unwind(|| c04::run_op(&vs, op, tag));
+                let describe1 = || (format!("{}/crash-after-failed-mapping", key_base), format!("{:?} crashed when the {} call number {} failed", op, what, k), json!({"region": r.kind, "region_len": r.len, "op": op.to_json(), "tag": tag, "fail": what, "nth": k}));
+                let res = match crate::crash::guarded(ctx, &describe1, || crate::crash::quiet_unwind(|| c04::run_op(&vs, op, tag))) {
+                    Some(r) => r,
+                    None => Err(Box::new("panic") as Box<dyn std::any::Any + Send>),
+                };
                 fail_fd_mmap_in(-1);
                 r.emu.state.borrow_mut().fail_map_in = None;
                 let maplog = stop_recording();
@@ -394,11 +399,14 @@ mod xen {
             let init: Vec<u8> = (0..len).map(|i| 0x10 + (i % 0x60) as u8).collect();
             let all = ops(len, thorough);
             let all: Vec<Op> = if kind == "grant-on-demand" { all } else { all.into_iter().step_by(if thorough { 1 } else { 5 }).collect() };
+            let mut passed: Vec<bool> = Vec::with_capacity(all.len());
             for (k, op) in all.iter().enumerate() {
-                step(ctx, &r, &init, op, (k % 90) as u8 + 1, &[]);
+                passed.push(step(ctx, &r, &init, op, (k % 90) as u8 + 1, &[]).is_some());
             }
             if kind == "grant-on-demand" {
-                for (k, op) in all.iter().enumerate().filter(|(k, _)| thorough || pages == 2 || k % 4 == 0) {
+                // (only operations that passed the fault-free step: the others may dereference
+                // outside any window)
+                for (k, op) in all.iter().enumerate().filter(|(k, _)| passed[*k] && (thorough || pages == 2 || k % 4 == 0)) {
                     fault_runs += faults(ctx, &r, &init, op, (k % 90) as u8 + 1);
                 }
             }
